@@ -70,12 +70,13 @@ def _part(e: ast.AST) -> str:
     return "?"
 
 
-def _trough_fact(fv, at: int, labname: str) -> Optional[bool]:
-    """Is the node on the trough path (True), the plate path (False) or undetermined (None)?"""
+def _trough_of(atoms, labname: str):
+    """Is a set of canonical atoms on the trough path (True), the plate path (False) or undetermined (None)?"""
     val = None
-    for r, pol, raw in fv.rfacts_at(at):
+    for r, pol in atoms:
         if isinstance(r, ast.Compare) and len(r.ops) == 1 and attr_of_name(r.left, labname, "virtual_rows") and isinstance(r.comparators[0], ast.Constant) and r.comparators[0].value is None:
-            val = (isinstance(r.ops[0], (ast.IsNot, ast.NotEq))) == pol
+            # canonical atoms use `is` / `==` with a polarity
+            val = not pol
         elif attr_of_name(r, labname, "is_trough"):
             val = pol
         elif isinstance(r, ast.Call) and call_fname(r) == "isinstance" and r.args and is_name(r.args[0], labname):
@@ -102,11 +103,11 @@ def formulas(ctx, rule: str = "C08.formula") -> None:
         lab = f.params[0]
         opaque = _classify(lab)
         seen = set()
-        for node in fv.cfg.nodes:
-            if node.kind != "stmt" or not isinstance(node.ast, ast.Return) or node.ast.value is None:
-                continue
-            trough = _trough_fact(fv, node.id, lab)
-            c = f"{f.qualname}/return[{'trough' if trough else 'plate' if trough is False else '?'}]"
+        for node in fv.return_nodes():
+          base_atoms = [(r, p) for r, p, br in fv.atoms_at(node.id)]
+          for conds, val in fv.alternatives(node.ast.value, node.id):
+            trough = _trough_of(base_atoms + list(conds), lab)
+            c = f"{f.qualname}/return[{'trough' if trough is True else 'plate' if trough is False else '?'}]"
             w = f.where(node.ast)
             if isinstance(trough, tuple):
                 n += 1
@@ -119,14 +120,13 @@ def formulas(ctx, rule: str = "C08.formula") -> None:
                 continue
             n += 1
             seen.add(trough)
-            val = fv.res.resolve(node.ast.value, node.id)
             p = to_poly(val, opaque)
             text, mk = EXPECTED[(pkg, trough)]
             want = mk()
-            unknown = [s for s in p.symbols() if not any(s == k for k in want.symbols())]
+            unknown = [s_ for s_ in p.symbols() if not any(s_ == k for k in want.symbols())]
             if p == want:
                 ctx.rep.holds(rule, c, f"canonical form {p.pretty()} == {text}", where=w, canon=p.pretty())
-            elif any("§" in p.names.get(s, "") or "[?]" in p.names.get(s, "") for s in unknown) and not _poly_shape_known(p):
+            elif any("§" in p.names.get(s_, "") or "[?]" in p.names.get(s_, "") for s_ in unknown) and not _poly_shape_known(p):
                 ctx.rep.inconclusive(rule, c, f"position `{p.pretty()[:120]}` is outside the fragment (table lookup or unknown ID part)", where=w)
             else:
                 ctx.rep.refuted(rule, c, f"{pkg} {'trough' if trough else 'plate'} position is `{p.pretty()[:140]}`; the property requires `{text}` "
